@@ -604,8 +604,10 @@ fn invalid_typed<V: Val>(t: &mut Tracer, rng: &mut Rng, _cx: &Ctx, var: Var, kin
             pats.insert(at, longest);
         }
     }
+    // one scenario in four is an otherwise VALID collection with shadowed patterns sharing tails
+    let shared_tail_mode = !long && kind == Kind::LF && rng.chance(1, 2) && pats.len() >= 2;
     // defects: empty entry, repeat of an existing entry (possibly shadowed), none
-    let ndef = rng.range(0, 2);
+    let ndef = if shared_tail_mode { 0 } else { rng.range(0, 2) };
     for _ in 0..ndef {
         match rng.below(3) {
             0 => {
@@ -622,7 +624,7 @@ fn invalid_typed<V: Val>(t: &mut Tracer, rng: &mut Rng, _cx: &Ctx, var: Var, kin
         }
     }
     // extensions of existing patterns make shadowing likely
-    if rng.chance(1, 2) && !pats.is_empty() {
+    if !shared_tail_mode && rng.chance(1, 2) && !pats.is_empty() {
         let mut e = pats[rng.below(pats.len())].clone();
         if !e.is_empty() {
             e.push(*rng.pick(&alpha.pat));
@@ -637,10 +639,12 @@ fn invalid_typed<V: Val>(t: &mut Tracer, rng: &mut Rng, _cx: &Ctx, var: Var, kin
     }
     // several patterns that are shadowed (under leftmost-first) by different prefixes but share a
     // tail, and possibly a genuine repeat of one of them
-    if rng.chance(1, 3) && pats.iter().filter(|p| !p.is_empty()).count() >= 2 {
+    if (shared_tail_mode || rng.chance(1, 4)) && pats.iter().filter(|p| !p.is_empty()).count() >= 2 {
         let ne: Vec<Pat> = pats.iter().filter(|p| !p.is_empty()).cloned().collect();
-        let a = ne[rng.below(ne.len())].clone();
-        let b = ne[rng.below(ne.len())].clone();
+        let ia = rng.below(ne.len());
+        let ib = (ia + 1 + rng.below(ne.len() - 1)) % ne.len();
+        let a = ne[ia].clone();
+        let b = ne[ib].clone();
         let tl = rng.range(1, 2);
         let tail: Pat = (0..tl).map(|_| *rng.pick(&alpha.pat)).collect();
         for base in [a, b] {
@@ -1008,7 +1012,9 @@ fn fam_decode(t: &mut Tracer, rng: &mut Rng, _cx: &Ctx) {
 
 /// C06/C09: every value type, 0/MIN/MAX/repeated values, before and after a round trip
 fn fam_values(t: &mut Tracer, rng: &mut Rng, cx: &Ctx, i: u64) {
-    let vt = ALL_TYPES[(i as usize) % ALL_TYPES.len()];
+    // (not i % len: the family schedule is periodic in i as well and would never reach some types)
+    let _ = i;
+    let vt = *rng.pick(ALL_TYPES);
     let var = if rng.chance(1, 2) { Var::C } else { Var::B };
     let kind = *rng.pick(&[Kind::Std, Kind::LL, Kind::LF]);
     with_val!(vt, small_typed(t, rng, cx, var, kind));
